@@ -56,9 +56,24 @@ def construction_cases(ctx, rep):
     return n, stats
 
 
+def coarse_specs(ctx):
+    """Constrained runs on a coarse search grid: snapping to the grid moves a point by up to 2^-(search_grid_number+1) of the
+    plausible box, enough to cross a constraint boundary - so a point must be feasibility-checked AFTER it was snapped."""
+    from .. import gen
+    rng = ctx.sub_rng("c02coarse")
+    specs = []
+    for _ in range(10 if ctx.quick else 80):
+        sp = gen.make_spec(rng, D=rng.choice([1, 2, 2, 3]), geom=rng.choice(["box", "tight", "unbounded"]), mode=rng.choice(["det", "decl", "auto", "he"]),
+                           cons=rng.choice(["ball", "halfspace", "slab", "ring"]), opt_loc=rng.choice(["inside", "outside"]))
+        sp["options"] = dict(gen.small_options(rng, sp["D"], sp["mode"]), search_grid_number=rng.choice([2, 3, 4]))
+        specs.append(sp)
+    return specs
+
+
 def run(ctx):
     rep = Report()
     ncon, cstats = construction_cases(ctx, rep)
+    runlevel.with_extra(ctx, "c02coarse", lambda: coarse_specs(ctx))
     stats, samples = runlevel.pipe_replay(ctx, rep, "C02")
     fcov = runlevel.filter_events(ctx, rep, want_clauses=("feasible",))
     traces = runlevel.get_pool(ctx)
